@@ -48,17 +48,17 @@ def EXHAUSTIVE(tier):
 
 def plan(seed, tier):
     cases = []
-    nprod = 3 if tier == "quick" else 8
+    nprod = 3 if tier == "quick" else 18
     for p in range(nprod):
         modes = ["exception"] + (["kill"] if p % 3 == 0 or tier == "thorough" else []) + (["torn"] if p % 3 == 1 or tier == "thorough" else [])
         for mode in modes:
             parts = 4
             for part in range(parts):
                 cases.append({"class": "crashpoints", "producer": p, "mode": mode, "part": part, "parts": parts, "cost": 20})
-    nh = 8 if tier == "quick" else 80
+    nh = 8 if tier == "quick" else 400
     for i in range(nh):
         cases.append({"class": "histories", "index": i, "cost": 8})
-    for i in range(3 if tier == "quick" else 18):
+    for i in range(3 if tier == "quick" else 36):
         cases.append({"class": "cli_tsv", "index": i, "cost": 25})
     return cases
 
